@@ -46,6 +46,7 @@ func init() {
 		oStatusSym
 		oStatusConflict
 		oBase8
+		oWildSlots
 	)
 	const (
 		mC03 = 1 << iota
@@ -82,6 +83,9 @@ func init() {
 			step("step", []int{1, 2, 1, oThreeRevs | oDeleting, mC04}, []int{2, 2, 1, oThreeRevs | oDeleting, mC04},
 				[]string{"created ordinal is desired", "created ordinal is not a delete slot", "no create for a set being deleted"},
 				[]string{"vacant ordinal filled", "finished pod re-created"}),
+			step("step-arbitrary-slots", []int{1, 2, 2, oPolicyParallel | oLeanPods | oNoRollout | oWildSlots, mC04 | mC14}, []int{1, 3, 2, oLeanPods | oWildSlots, mC04 | mC14},
+				[]string{"created ordinal is desired", "every vacant desired ordinal is created in the same reconcile"},
+				[]string{"vacant ordinal filled"}),
 		},
 		Stubs: ctlStubs, Assumptions: stepAssume, OutsideClaim: stepOutside,
 	})
@@ -170,6 +174,9 @@ func init() {
 			syncRun("sync", []int{1, 2, 1, yPause | yDeleting | yOwnerDims | yOrphanRevs, nC11}, []int{2, 2, 1, yPause | yDeleting | yOwnerDims | yHealthDims | yOrphanRevs, nC11},
 				[]string{"a paused set is not written at all", "no pod or claim write for a set being deleted"},
 				[]string{"paused set reconciled", "deleting set reconciled"}),
+			syncRun("sync-stale-cache", []int{1, 1, 0, yStaleCache | yOwnerDims | yOrphanRevs, nC11}, []int{2, 1, 0, yStaleCache | yOwnerDims | yOrphanRevs, nC11},
+				[]string{"nothing is adopted once the API server shows the set being deleted"},
+				[]string{"set deleted on the server, cache stale"}),
 		},
 		Stubs:        ctlStubs,
 		Assumptions:  []string{"getPatch/ApplyRevision models as in C03"},
@@ -210,7 +217,7 @@ func init() {
 				},
 				Asserts: []string{"an unchanged template writes no revision", "a rollback renumbers the old revision instead of creating one", "a new template creates a revision",
 					"status.updateRevision names a stored revision of the current template", "a colliding revision of different data is never overwritten", "a non-template edit keeps the update revision"},
-				Covers: []string{"template unchanged", "rollback to an older revision", "new template", "engineered name collision", "non-template edit reconciled"}},
+				Covers: []string{"template unchanged", "rollback to an older revision", "new template", "engineered name collision", "colliding revision carries the same hash label", "non-template edit reconciled"}},
 		},
 		Stubs: ctlStubs,
 		Assumptions: []string{
